@@ -1,3 +1,5 @@
+//go:build verif && (all || c30)
+
 package main
 
 import (
